@@ -112,3 +112,12 @@ Definition env_alive (depth ilsize : list N) : bool :=
 (* value denoted by a string of decimal digits *)
 Definition dec_val (ds : list N) : N := fold_left (fun a c => a * 10 + (c - 48)) ds 0.
 Definition all_digits (ds : list N) : bool := forallb (fun c => (48 <=? c) && (c <=? 57)) ds.
+
+(* value denoted by a digit string in base b (digits 0-9, a-z / A-Z), for the statements about prefixed numerals *)
+Definition digit_val (c : N) : option N :=
+  if (48 <=? c) && (c <=? 57) then Some (c - 48)
+  else if (97 <=? lower c) && (lower c <=? 122) then Some (lower c - 97 + 10) else None.
+Definition digits_in (b : N) (ds : list N) : bool :=
+  forallb (fun c => match digit_val c with Some d => d <? b | None => false end) ds.
+Definition base_val (b : N) (ds : list N) : N :=
+  fold_left (fun a c => a * b + match digit_val c with Some d => d | None => 0 end) ds 0.
